@@ -128,8 +128,11 @@ class DownloadFile:
         return download_file
 
     def __post_init__(self):
+        self._placeholder_variant = False
+
         if not self.compression_variants:
             self.add_compression_variant(self.path, size=0)
+            self._placeholder_variant = True
 
     def add_compression_variant(
         self,
@@ -139,6 +142,13 @@ class DownloadFile:
         hash_sum: HashSum | None = None,
         use_by_hash: bool = False,
     ):
+        # The implicit size-less variant only stands for files without any
+        # explicitly listed variant; otherwise it would be an unlisted fallback
+        # which is fetched without any size check
+        if self._placeholder_variant:
+            self.compression_variants.clear()
+            self._placeholder_variant = False
+
         hashes: dict[HashType, HashSum] = {}
         if hash_type and hash_sum:
             hashes[hash_type] = hash_sum
